@@ -1,0 +1,46 @@
+//go:build verif
+
+package calcium
+
+import (
+	"time"
+
+	"github.com/panjf2000/ants/v2"
+	"github.com/projecteru2/core/discovery"
+	"github.com/projecteru2/core/resource"
+	"github.com/projecteru2/core/store"
+	"github.com/projecteru2/core/types"
+	"github.com/projecteru2/core/wal"
+)
+
+// NewForVerif assembles a Calcium from caller-supplied parts (verification harness only).
+// With w == nil the real enableWAL runs, registering the real handlers on config.WALFile.
+func NewForVerif(config types.Config, stor store.Store, rmgr resource.Manager, w wal.WAL, pool *ants.PoolWithFunc, watcher discovery.Service) (*Calcium, error) {
+	cal := &Calcium{store: stor, config: config, watcher: watcher, rmgr: rmgr, pool: pool}
+	var err error
+	if w == nil {
+		if w, err = enableWAL(config, cal, stor); err != nil {
+			return nil, err
+		}
+	}
+	cal.wal = w
+	cal.identifier, err = config.Identifier()
+	return cal, err
+}
+
+// ShutdownForVerif stops the pool owned by the WAL resource handler and closes the WAL file.
+func (c *Calcium) ShutdownForVerif(d time.Duration) {
+	hydro, ok := c.wal.(*wal.Hydro)
+	if !ok {
+		return
+	}
+	if h, ok := hydro.Map.Get(eventWorkloadResourceAllocated); ok {
+		if rh, ok := h.(*WorkloadResourceAllocatedHandler); ok && rh.pool != nil {
+			_ = rh.pool.ReleaseTimeout(d)
+		}
+	}
+	_ = hydro.Close()
+}
+
+// WALForVerif exposes the WAL (verification harness only).
+func (c *Calcium) WALForVerif() wal.WAL { return c.wal }
